@@ -13,7 +13,7 @@ ASSUMPTIONS = [
     "rows of pack2 output beyond the packed length are unspecified and not compared",
     "numpy (own bundled OpenBLAS) is the reference linear algebra",
 ]
-REQUIRED_COUNTERS = ["kernel.scale", "kernel.scale2", "kernel.pack", "kernel.pack2", "kernel.unpack",
+REQUIRED_COUNTERS = ["scale.trailing-rows.multicolumn-s-block", "max_step.block-exactly-on-boundary.not-last", "kernel.scale", "kernel.scale2", "kernel.pack", "kernel.pack2", "kernel.unpack",
                      "kernel.sdot", "kernel.snrm2", "kernel.sgemv", "kernel.trisc", "kernel.triusc",
                      "kernel.symm", "kernel.sprod", "kernel.ssqr", "kernel.sinv", "kernel.max_step",
                      "kernel.jdot", "kernel.jnrm2", "impl.C", "impl.py"]
@@ -162,11 +162,22 @@ def run(ctx):
             Wn = gen_W(rng, dims)
             X = np.array([cone.random_vector(rng, dims, symmetric=False) for _ in range(ncols)]).T.reshape(N, ncols)
             want = np.column_stack([cone.W_apply(Wn, X[:, j], trans, inverse) for j in range(ncols)]) if ncols else X
+            # x may have more rows than the cone has entries (both implementations take the column stride from x.size[0]):
+            # the trailing rows belong to no block and must come back bit-identical
+            pad = rng.choice([0, 0, 0, 1, 2, 5]) if N else 0
+            PADV = np.array([[rng.uniform(-9, 9) for _ in range(ncols)] for _ in range(pad)]).reshape(pad, ncols)
+            if pad:
+                ctx.count("scale.trailing-rows"); flags += "p"
+                if ncols > 1 and dims.s: ctx.count("scale.trailing-rows.multicolumn-s-block")
             def call(mod):
-                x = to_matrix(X) if N else matrix(0.0, (0, ncols))
+                x = to_matrix(np.vstack([X, PADV])) if N else matrix(0.0, (0, ncols))
                 W = mkW(Wn)
                 mod.scale(x, W, trans=trans, inverse=inverse)
-                return {"x": to_np(x)}
+                full = to_np(x)
+                if pad:
+                    c.require(np.array_equal(full[N:, :], PADV), "scale:%s:trailing-rows-modified" % ("C" if mod is misc else "py"),
+                              "rows of x below the cone's entries changed", before=PADV, after=full[N:, :])
+                return {"x": full[:N, :]}
             def judge(o, iname):
                 close(c, o["x"][lm, :], want[lm, :], "scale:%s:definition" % iname,
                       "scale(trans=%s,inverse=%s) vs W definition" % (trans, inverse),
@@ -533,6 +544,26 @@ def run(ctx):
             inside = rng.random() < 0.5
             flags = ("sig" if with_sigma else "nosig")
             xv = cone.random_interior(rng, dims, junk=rng.random() < 0.5) if inside else cone.random_vector(rng, dims, symmetric=False)
+            if N and rng.random() < 0.25:
+                # one block exactly on the boundary of its cone (value exactly 0.0), every other block strictly inside
+                xv = cone.random_interior(rng, dims)
+                blks = [(k_, st_, m_) for (k_, st_, m_) in dims.blocks() if m_ > 0]
+                k_, st_, m_ = rng.choice(blks)
+                if k_ in ("nl", "l"):
+                    xv[st_ + rng.randrange(m_)] = 0.0
+                elif k_ == "q":
+                    blk = np.zeros(m_)
+                    if m_ == 1: blk[0] = 0.0
+                    elif m_ == 2: blk[:] = [2.0, rng.choice([2.0, -2.0])]
+                    else: blk[:3] = [5.0, 3.0, rng.choice([4.0, -4.0])]
+                    xv[st_:st_ + m_] = blk
+                else:
+                    dg = [0.0] + [float(rng.randint(1, 4)) for _ in range(m_ - 1)]
+                    rng.shuffle(dg)
+                    xv[st_:st_ + m_ * m_] = vecF(np.diag(dg))
+                ctx.count("max_step.block-exactly-on-boundary")
+                if (k_, st_, m_) != blks[-1]: ctx.count("max_step.block-exactly-on-boundary.not-last")
+                flags += "bd"
             want = -cone.margin(xv, dims)
             if want == -math.inf:
                 want = 0.0
